@@ -4,6 +4,7 @@ import (
 	"bufio"
 	"encoding/json"
 	"fmt"
+	"golang.org/x/sys/unix"
 	"os"
 	"os/exec"
 	"path/filepath"
@@ -13,6 +14,7 @@ import (
 	"strings"
 	"sync"
 	"sync/atomic"
+	"syscall"
 	"time"
 
 	"github.com/gdamore/tcell/v2"
@@ -152,6 +154,7 @@ type c10job struct {
 	Sim     bool     `json:"sim"`
 	Iters   int      `json:"iters"`
 	Env     string   `json:"env,omitempty"` // NAME=value set for the job (the library reads it at Init/Resume)
+	Pty     bool     `json:"pty,omitempty"` // the library's own /dev/tty driver on a pseudo terminal instead of the fake tty
 }
 
 type c10out struct {
@@ -179,6 +182,7 @@ func c10runJob(j c10job) (out c10out) {
 		ms[m.name] = m
 	}
 	var s tcell.Screen
+	var master *os.File
 	var ft *faketty.Tty
 	var term *vt.Term
 	var termErr atomic.Value
@@ -190,6 +194,38 @@ func c10runJob(j c10job) (out c10out) {
 		}
 		ss.SetSize(40, 10)
 		s = ss
+	} else if j.Pty {
+		m, path, err := openPty(40, 12)
+		if err != nil {
+			out.Problem = "no pty: " + err.Error()
+			return
+		}
+		master = m
+		defer master.Close()
+		go func() { // the terminal swallows the output
+			buf := make([]byte, 8192)
+			for {
+				if _, err := master.Read(buf); err != nil {
+					return
+				}
+			}
+		}()
+		dt, err := tcell.NewDevTtyFromDev(path)
+		if err != nil {
+			out.Problem = "NewDevTtyFromDev: " + err.Error()
+			return
+		}
+		ti := Pristine("xterm-256color")
+		ti.PadChar = ""
+		s, err = tcell.NewTerminfoScreenFromTtyTerminfo(dt, ti)
+		if err != nil {
+			out.Problem = err.Error()
+			return
+		}
+		if err := s.Init(); err != nil {
+			out.Problem = err.Error()
+			return
+		}
 	} else {
 		ti := Pristine("xterm-256color")
 		ti.PadChar = ""
@@ -265,13 +301,37 @@ func c10runJob(j c10job) (out c10out) {
 	var stop int32
 	var bg sync.WaitGroup
 	// library goroutines busy: input and resize notifications
-	if !j.Sim {
+	if j.Pty {
+		bg.Add(1)
+		go func() {
+			defer bg.Done()
+			k := 0
+			for atomic.LoadInt32(&stop) == 0 {
+				k++
+				_, _ = master.Write([]byte(fmt.Sprintf("k\x1b[<0;%d;%dMq", 1+k%40, 1+k%10)))
+				if k%20 == 0 {
+					_ = unix.IoctlSetWinsize(int(master.Fd()), unix.TIOCSWINSZ, &unix.Winsize{Row: uint16(12 + k%2), Col: uint16(40 + k%3)})
+					_ = syscall.Kill(os.Getpid(), syscall.SIGWINCH)
+				}
+				time.Sleep(300 * time.Microsecond)
+			}
+		}()
+	} else if !j.Sim {
 		bg.Add(2)
 		go func() {
 			defer bg.Done()
 			k := 0
 			for atomic.LoadInt32(&stop) == 0 {
 				k++
+				if k%40 == 0 {
+					// a lone ESC that only the escape timeout can resolve, then silence past the timeout
+					select {
+					case ft.FeedC() <- []byte("\x1b"):
+						time.Sleep(60 * time.Millisecond)
+					case <-time.After(200 * time.Microsecond):
+					}
+					continue
+				}
 				select {
 				case ft.FeedC() <- []byte(fmt.Sprintf("k\x1b[<0;%d;%dMé", 1+k%40, 1+k%10)):
 				case <-time.After(200 * time.Microsecond):
@@ -397,7 +457,7 @@ func c10runJob(j c10job) (out c10out) {
 	if !hasFini {
 		fd := make(chan struct{})
 		go func() {
-			if !j.Sim {
+			if !j.Sim && ft != nil {
 				ft.BeginFini()
 			}
 			s.Fini()
@@ -569,6 +629,12 @@ func C10(r *core.Run) {
 			}
 		}
 	}
+	// the library's own terminal driver (devTty on a pseudo terminal): lifecycle calls against the
+	// calls that write to or query the terminal
+	for _, m := range []string{"Show", "Sync", "Beep", "SetTitle", "SetContent", "EnableMouse", "SetCursorStyle", "Size", "SetSize", "SetClipboard", "HasPendingEvent", "Clear"} {
+		jobs = append(jobs, c10job{Idx: len(jobs), Methods: []string{"SuspendResume", m}, Iters: iters, Pty: true})
+	}
+	jobs = append(jobs, c10job{Idx: len(jobs), Methods: []string{"Show", "Fini"}, Iters: iters, Pty: true}, c10job{Idx: len(jobs) + 1, Methods: []string{"Show", "SetSize", "Beep"}, Iters: iters, Pty: true})
 	nsets := r.Pick(40, 500)
 	for i := 0; i < nsets; i++ {
 		rg := r.Rand("set", i)
